@@ -637,7 +637,8 @@ def cfg_words_up_to_n(G: CFG, n: int) -> Set[str]:
         return list(k for k, _ in itertools.groupby(x))
 
     W: List[DerivationTerm] = [[G.S]]
-    words = words | make_words([G.S])
+    if n >= 1:
+        words = words | make_words([G.S])
 
     for i in range(2, n + 1):
         W = remove_duplicates([x for word in W for x in replace(word)])
